@@ -22,7 +22,9 @@ LEVEL_NOTE = ("Theorems are about the Gallina model Schema/SdlPrint.v of sdl/ast
 RULE = ("SDL-built and code-built schemas from harness/gen_sdl.py (internal enum values, python names, "
         "defaults of every input kind, descriptions incl. re-wrapped ones, deprecations, custom directives), "
         "all printer options (indent int/str, descriptions, introspection, custom directives off/all/list), "
-        "call histories of length 1..6 over 1..2 schemas in a process with fresh module state; plus schemas "
+        "call histories of length 1..6 over 1..2 schemas in a process with fresh module state; plus an "
+        "options-matrix stream: 3..6 calls with every option (indent 0/1/2/4/8/tab/spaces, descriptions, "
+        "introspection, custom directives) drawn independently per call; plus schemas "
         "whose custom scalars / String / ID carry ==-equal defaults of different Python types (True/1/1.0, "
         "False/0/0.0, also in lists and input objects), within one schema and across schemas sharing the "
         "scalar objects printed in sequence; "
@@ -114,6 +116,16 @@ input I @foo { "f" x: Int = 1 @foo y: E = A l: [Float] = 1 d: Date = "2020-01-01
     for o in (DEFAULT, _opts(indent=8), _opts(indent="\t\t")):
         out.append(_case([descs], [[0, o]], "descriptions"))
     out.append(_case([_sdl("type Query { a: Int }")], [[0, _opts(introspection=True)], [0, DEFAULT]], "introspection"))
+    # seeded C12-b: built-in directive definitions cached without the indent in the key
+    small = _sdl('"root"\ntype Query { "f" a(x: Int = 1): Int @deprecated }')
+    intro = lambda **kw: _opts(introspection=True, **kw)  # noqa: E731
+    out.append(_case([small], [[0, intro(indent=2)], [0, intro(indent=4)], [0, intro(indent="\t")],
+                               [0, intro(indent=2, descriptions=False)], [0, intro(indent=0)], [0, intro(indent=2)]],
+                     "options-matrix"))
+    out.append(_case([small, _sdl("type Query { b: Int }")],
+                     [[1, intro(indent=8)], [0, intro(indent=1, custom=True)], [1, intro(indent="  ")],
+                      [0, _opts(indent=8)], [1, intro(indent=8, descriptions=False)], [0, intro(indent=4)]],
+                     "options-matrix"))
     # seeded C12-a: defaults that are == but of different Python types must not share a rendering
     out.append(_case([_sdl("scalar Any\ninput In { x: Any = 1, y: Any = true, z: Any = 1.0 }\n"
                            "type Query { q(a: Any = true, b: Any = 1, c: Any = 1.0, d: Any = 0, e: Any = false, "
@@ -192,6 +204,25 @@ def _typed_equal_case(rng, label="typed-equal-defaults"):
     return _case(schemas, steps[:6], label)
 
 
+def _free_opts(rng, intro_p=0.5):
+    """every option drawn independently (indent as width and as string)"""
+    r = rng
+    return {"indent": r.choice([0, 1, 2, 4, 8, "\t", "  ", " "]),
+            "descriptions": r.random() < 0.7,
+            "introspection": r.random() < intro_p,
+            "custom": r.choice([False, True, ["tag"], ["auth", "length"], []])}
+
+
+def _options_matrix_case(rng, label="options-matrix"):
+    """3..6 calls over 1..2 schemas in one process, all options varied independently per call:
+    exposes process-wide state keyed on a subset of (schema, options)"""
+    schemas = [_source(rng)]
+    if rng.random() < 0.4:
+        schemas.append(_source(rng))
+    steps = [[rng.randrange(len(schemas)), _free_opts(rng)] for _ in range(rng.randint(3, 6))]
+    return _case(schemas, steps, label)
+
+
 def _rand_opts(rng):
     r = rng
     return {"indent": r.choice([4, 4, 2, 0, 8, "\t", "  ", " "]),
@@ -224,6 +255,8 @@ def generate(rng, tier):
         cases.append(_case(schemas, steps))
     for _ in range(25 if tier == "quick" else 300):
         cases.append(_typed_equal_case(rng))
+    for _ in range(40 if tier == "quick" else 500):
+        cases.append(_options_matrix_case(rng))
     return cases
 
 
